@@ -103,7 +103,29 @@ func c13MakeFault(r *runner.Rng, t *term.Term, g *term.Gen) *c13Fault {
 		return cands[r.Intn(len(cands))]
 	}
 	for tries := 0; tries < 12; tries++ {
-		switch r.Intn(12) {
+		switch r.Intn(13) {
+		case 12: // faults located at a conditional expression
+			strictSet := map[*term.Term]bool{}
+			for _, x := range strictSubterms(t) {
+				strictSet[x] = true
+			}
+			n := pick(func(x *term.Term) bool { return x.K == term.KCond && x.Sub[0] != x.Sub[1] }, subs)
+			if n == nil {
+				continue
+			}
+			id := func(nm string) *term.Term {
+				x, _ := term.Ident(&term.Scope{Env: envs.EnvType, AllowAny: true}, nm)
+				return x
+			}
+			if r.Bool() || !strictSet[n] {
+				// its condition is itself a conditional, of ints
+				inner := &term.Term{K: term.KCond, T: term.IntT, Sub: []*term.Term{id(r.Pick([]string{"P", "Q"})), term.Int(1), term.Int(2)}}
+				bad := rawCopy(n, inner, n.Sub[1], n.Sub[2])
+				return &c13Fault{class: "non-bool-condition(conditional)", mutated: replaceNode(t, n, func() *term.Term { return bad }), target: inner}
+			}
+			// its condition is a dynamic value that is not a bool at run time
+			bad := rawCopy(n, id("AnyS"), n.Sub[1], n.Sub[2])
+			return &c13Fault{class: "runtime-non-bool-condition", mutated: replaceNode(t, n, func() *term.Term { return bad }), target: bad, runtime: true}
 		case 0: // unknown identifier
 			n := pick(func(x *term.Term) bool { return x.K == term.KIdent && !ns[x] }, subs)
 			if n == nil {
@@ -398,13 +420,22 @@ func c13Case(c *runner.Ctx, idx uint64) {
 			hasRetypedLiteral = true // fails for another reason when compiled untyped
 		}
 	})
+	stages := []string{"typed", "typed,Optimize(false)"}
 	if f.runtime && !hasRetypedLiteral {
 		variants = append(variants, []expr.Option{}) // untyped
+		stages = append(stages, "untyped")
+	}
+	// a result directive that fits the expression must not hide the fault
+	switch {
+	case term.IsBool(whole.T):
+		variants, stages = append(variants, []expr.Option{expr.Env(envs.Env{}), expr.AsBool()}), append(stages, "typed,AsBool")
+	case term.IsNum(whole.T):
+		variants, stages = append(variants, []expr.Option{expr.Env(envs.Env{}), expr.AsFloat64()}), append(stages, "typed,AsFloat64")
 	}
 	for vi, opts := range variants {
 		p, co := SafeCompile(src, opts...)
 		c.Eval(1)
-		stage := []string{"typed", "typed,Optimize(false)", "untyped"}[vi]
+		stage := stages[vi]
 		if co.Panic != nil {
 			c.Violate("compile-panic", fmt.Sprint(co.Panic), cas(nil, stage))
 			return
@@ -434,7 +465,7 @@ func c13Case(c *runner.Ctx, idx uint64) {
 			c.Count("runtime_fault_did_not_fail", 1)
 			continue
 		}
-		if vi == 2 && !c13PlantedMessage(f.class, o.Err.Error()) {
+		if stage == "untyped" && !c13PlantedMessage(f.class, o.Err.Error()) {
 			// compiled without type information another operation may fail first
 			// (e.g. `-(7 * Y) == len(xs)` is specialised to OpEqualInt because
 			// int * interface{} is typed int): not the planted fault
@@ -573,6 +604,12 @@ func init() {
 				}
 				return 40000
 			}, Run: c13Syntax},
+			{Name: "syntax-fixed", N: func(tier string) uint64 {
+				if tier == "thorough" {
+					return 60000
+				}
+				return 2000
+			}, Run: c13SyntaxFixed},
 			{Name: "any-error", N: func(tier string) uint64 {
 				if tier == "thorough" {
 					return 1500000
@@ -644,8 +681,77 @@ func c13PlantedMessage(class, msg string) bool {
 		return has("nil pointer", "invalid memory address")
 	case "runtime-bad-regexp":
 		return has("error parsing regexp")
-	case "runtime-non-bool-operand-of-connective":
+	case "runtime-non-bool-operand-of-connective", "runtime-non-bool-condition":
 		return has("interface conversion")
 	}
 	return true
+}
+
+// c13SyntaxFixed: three syntax faults whose offending token is known by
+// construction (a literal pattern that is not a regexp, a non-name after a
+// dot, a string literal that is not closed on its line), laid out over several
+// lines so that "the token after" is on another line.
+func c13SyntaxFixed(c *runner.Ctx, idx uint64) {
+	r := c.R
+	pre := r.Pick([]string{"", "A > 0 and", "P or", "[1, 2] == Ints ? 1 :", "not"})
+	post := r.Pick([]string{"", "and true", "or Q", "== P"})
+	sep := func() string { return r.Pick([]string{" ", "\n", "\n  ", " \n\t", "\r\n", "  "}) }
+	var src, class, token string
+	switch idx % 3 {
+	case 0:
+		token = r.Pick([]string{`"["`, `"a(b"`, `"*"`, `'[a-'`})
+		src, class = pre+sep()+"S"+sep()+"matches"+sep()+"\x01"+token+sep()+post, "invalid-regexp-literal"
+	case 1:
+		token = r.Pick([]string{"(", "[", "1", `"x"`, "+"})
+		tail := map[string]string{"(": "A)", "[": "0]", "1": "", `"x"`: "", "+": "A"}[token]
+		src, class = pre+sep()+"It"+sep()+"."+sep()+"\x01"+token+sep()+tail+sep()+post, "non-name-after-dot"
+	default:
+		token = r.Pick([]string{`"abc`, `'x y`, `"`})
+		src, class = pre+sep()+"S =="+sep()+"\x01"+token+"\n"+r.Pick([]string{"+ 1", "and P", " "})+sep()+post, "unterminated-string-literal"
+	}
+	off := strings.IndexByte(src, 1)
+	src = src[:off] + src[off+1:]
+	wantLine, wantCol := 1, 0
+	for _, ru := range src[:off] {
+		if ru == '\n' {
+			wantLine++
+			wantCol = 0
+		} else {
+			wantCol++
+		}
+	}
+	c.Begin(src)
+	c.SetAdd("fault_classes", class)
+	_, po := safeParse(src)
+	c.Eval(1)
+	cas := map[string]interface{}{"source_quoted": fmt.Sprintf("%q", src), "fault": class, "token": token, "expected_line": wantLine, "expected_column": wantCol}
+	if po.Panic != nil {
+		c.Violate("parse-panic", fmt.Sprint(po.Panic), cas)
+		return
+	}
+	if po.Err == nil {
+		c.Count("fault_not_rejected", 1)
+		return
+	}
+	c13Generic(c, src, po.Err, "parse")
+	fe := asFileError(po.Err)
+	if fe == nil || fe.Location.Empty() {
+		c.Violate("no-location:"+class, "the error carries no source location: "+firstLine(po.Err.Error()), cas)
+		return
+	}
+	cas["reported_line"], cas["reported_column"], cas["message"] = fe.Line, fe.Column, fe.Message
+	c.Distinct(src)
+	if class == "unterminated-string-literal" {
+		// the lexer reports the end of the literal (pinned by its own tests for
+		// the single-line case): the line must be the literal's, the column
+		// inside or just after it
+		if fe.Line != wantLine || fe.Column < wantCol {
+			c.Violate("wrong-position:"+class, fmt.Sprintf("error reported at (%d,%d), the literal %q starts at (%d,%d) and ends on that line", fe.Line, fe.Column, token, wantLine, wantCol), cas)
+			return
+		}
+	} else if fe.Line != wantLine || fe.Column != wantCol {
+		c.Violate("wrong-position:"+class, fmt.Sprintf("error reported at (%d,%d), the offending token %q is at (%d,%d)", fe.Line, fe.Column, token, wantLine, wantCol), cas)
+		return
+	}
+	c.Count("positions_exact", 1)
 }
